@@ -13,11 +13,12 @@ from vlib.gentie import gentie_step
 # take the same branches and the wet-bulb outputs then differ only by the smooth libm error.
 CHECK = Check(
     "C20",
-    props_modules=["OW.Props.C20"],
+    props_modules=["OW.Props.C20", "OW.Props.Rounded.C20"],
     families=[Family("K", rtol=1e-9, atol_scale=1e-12, args=["models=ClimateVariables", "prop=C20", "n=400"], label="K-climate")],
     pre_steps=[gentie_step],   # tie A: climate_variables.go regenerated as Lean and proved equal to the hand-written model (gen_eq_ClimateVariables)
     level="proof",
     trusted=[
+        "OW.Props.Rounded.C20: the INEQUALITY clauses are also proved over rounded arithmetic — the same kernel definitions instantiated at RNum R (OW/Proofs/Rounded.lean: every operation = exact real result followed by a rounding R.rnd that is monotone, odd, idempotent and fixes 0; literals rounded once; min/max/comparisons exact), for EVERY such R. Interpretation (not a Lean term): IEEE-754 binary64 round-to-nearest (or toward zero) on computations without overflow/NaN is one such R; math.Pow/Exp/Log are idealised as correctly rounded (only their sign / range is used). Two concrete non-identity instances (grid truncation, grid rounding away from zero) are constructed as witnesses",
         "hand-written Lean model OW/Kernels/Climate.lean of models/climate/climate_variables.go (Goff-Gratch, Magnus dew point, "
         "barometric pressure, humidity ratio, enthalpy, 40-step wet-bulb bisection with its early exit), tied to the code by the "
         "K correspondence on every run (real ClimateVariables wrapper+kernel via sim.Catalog vs compiled model, rtol 1e-9)",
@@ -28,6 +29,7 @@ CHECK = Check(
         "bit for bit, dew point increasing along ascending humidity grids, finiteness)",
     ],
     assumptions=[
+        "rounded theorems (OW.Props.Rounded.C20): only the dew-point side of wetbulb_between survives an arbitrary monotone rounding (bisect_overshoots_away2 is a legitimate rounding on which the bisection leaves its bracket); wet <= dry stays an exact-arithmetic theorem + oracle",
         "vp_pos, wetbulb_between, deltaT_def: no hypotheses (any temperature, humidity, elevation; wetbulb_between for ANY "
         "enthalpy/pressure/vapour-pressure functions)",
         "vp_strictMono (= vp_strictMono_ice + vp_strictMono_across + vp_strictMono_water): −273.16 < T1 < T2 ≤ 100, including "
